@@ -138,6 +138,9 @@ def interval(s: Sym, env: Callable[[Sym], Optional[Interval]]) -> Interval:
             return TOP
         if op == "%":
             if c > 0:
+                # x % m for a constant m on a range inside one block of length m is exact
+                if c == d and a not in (INF, -INF) and b not in (INF, -INF) and int(a) // int(c) == int(b) // int(c):
+                    return (int(a) % int(c), int(b) % int(c))
                 return (0, d - 1 if d != INF else INF)
             return TOP
         if op == "/":
